@@ -17,7 +17,7 @@ vars == <<ex, depth, lane, parent, prop>>
 Key(l, d, salt) == (l * 7919 + d * 104729 + Seed * 15485 + salt * 611953) % 1000003
 PickDet(set, key) == LET q == SetToSeq(set) IN q[(key % Len(q)) + 1]
 
-CatsOf(p) == CASE p = "C02" -> {1} [] p = "C10" -> {1, 2, 3} [] p = "C06" -> {4} [] p = "C05" -> {5}
+CatsOf(p) == CASE p = "C02" -> {1} [] p = "C10" -> {1, 2, 3} [] p = "C06" -> {4} [] p = "C05" -> {5, 14}
                [] p \in {"C08", "C09"} -> {6, 7} [] p = "C14" -> {8, 9} [] p = "C13" -> {10, 11} [] p = "C12" -> {12, 13}
                [] OTHER -> 1..NCat         \* C07 and anything else: all categories
 Cats == 1..NCat
@@ -26,7 +26,8 @@ Cats == 1..NCat
 ObsNum == {Fld(Fld(Fld(Obn, "referenceRange"), "low"), "value"), Fld(Fld(Fld(Obn, "referenceRange"), "high"), "value"), Fld(Fld(Obn, "value"), "value"),
            Ix(Fld(Fld(Obn, "component"), "value"), 1)}
 ObsStr == {Fld(Fld(Fld(Obn, "component"), "code"), "text"), Fld(Fld(Obn, "value"), "unit"), Ix(Fld(Fld(Obn, "component"), "value"), 0), Fld(Fld(Obn, "subject"), "reference")}
-ObsTemporal == {Fld(Obn, "effective"), Fld(Obn, "issued"), Ix(Fld(Fld(Obn, "component"), "value"), 3), Ix(Fld(Fld(Obn, "component"), "value"), 4)}
+ObsTemporal == {Fld(Obn, "effective"), Fld(Obn, "issued"), Ix(Fld(Fld(Obn, "component"), "value"), 3), Ix(Fld(Fld(Obn, "component"), "value"), 4),
+                Ix(Fld(Fld(Obn, "component"), "value"), 5)}
 NumStarts == ObsNum \cup {Var("ints"), Var("decs"), Var("seven"), Var("big"), Var("neg"), Var("min"), Var("half"), Fld(Fld(Pat, "telecom"), "rank"), Fld(Pat, "multipleBirth")} \cup NumLits
 StrStarts == ObsStr \cup {Var("strs"), Var("uni"), Var("uni1"), Var("digits"), Fld(Fld(Pat, "name"), "given"), Fld(Fld(Pat, "name"), "family"), Fld(Pat, "id"), Fld(Fld(Pat, "address"), "line"),
               Fld(Fld(Pat, "identifier"), "value")} \cup StrLits
@@ -36,7 +37,7 @@ StartsFor(p) == CASE p = "C08" -> NumStarts [] p = "C14" -> StrStarts
                   [] p = "C09" -> ObsTemporal \cup DateLits \cup DtLits \cup TimeLits \cup {Fld(Pat, "birthDate"), Fld(Fld(Pat, "meta"), "lastUpdated"),
                                                                       Fld(Fld(Fld(Pat, "birthDate"), "extension"), "value"), Fld(Fld(Fld(Pat, "address"), "period"), "start")}
                   [] p = "C12" -> Starts \cup {Fld(Fld(Obn, "component"), "value"), Fld(Obn, "value"), Fld(Obn, "component"), Fld(Obn, "effective")}
-                  [] p = "C05" -> ObsTemporal \cup NumStarts \cup StrStarts \cup DateLits \cup DtLits \cup TimeLits \cup {Fld(Pat, "birthDate"), Fld(Fld(Pat, "meta"), "lastUpdated")}
+                  [] p = "C05" -> NumPeers \cup StrPeers \cup DtPeers \cup ObsTemporal \cup NumStarts \cup StrStarts \cup DateLits \cup DtLits \cup TimeLits \cup {Fld(Pat, "birthDate"), Fld(Fld(Pat, "meta"), "lastUpdated")}
                   [] OTHER -> Starts
 StartSeq(l) == SetToSeq(IF Key(l, 0, 5) % 2 = 0 THEN StartsFor(Prop) ELSE Starts)
 Init == /\ lane \in 1..Lanes
